@@ -699,6 +699,8 @@ RESULTS = {
     "int": ("int", "", "int", "40 + cnt", "integer(C_INT) :: rv", "call pint('rv', rv)", lambda c: "rv=i:%d" % (40 + c), False),
     "double": ("double", "", "double", "0.5 * cnt", "real(C_DOUBLE) :: rv", "call pdbl('rv', rv)", lambda c: "rv=d:%r" % (0.5 * c), False),
     "bool": ("bool", "", "bool", "(cnt % 2) == 1", "logical :: rv", "call plog('rv', rv)", lambda c: "rv=b:%d" % (c % 2), False),
+    "chr": ("char", "", "char", "(char) ('A' + cnt % 26)", "character(len=1) :: rv", "call pstr('rv', rv)",
+            lambda c: "rv=s:[%s]" % chr(65 + c % 26), False),
     "cstr": ("const char *", "", "const char *", "RS[cnt % 4]", "character(len=:), allocatable :: rv", "call pstrl('rv', rv)",
              lambda c: "rv=s:%d[%s]" % (len(RES_STR[c % 4]), RES_STR[c % 4]), False),
     "cstr_len": ("const char *", " +len(30)", "const char *", "RS[cnt % 4]", "character(len=30) :: rv", "call pstr('rv', rv)",
@@ -730,7 +732,7 @@ RESULTS = {
                "integer(C_INT), allocatable :: rv(:)", "call parr('rv', rv)",
                lambda c: "rv=a:%s" % "".join("%d," % v for v in RA[:VSZ[c % 4]]), True, "="),
 }
-RES_C = ["void", "void", "int", "double", "bool", "cstr", "cstr_len"]
+RES_C = ["void", "void", "int", "double", "bool", "chr", "cstr", "cstr_len"]
 RES_CXX = RES_C + ["string", "string_ref", "string_len"]
 RES_DIM = ["iptr", "ialloc"]
 RES_DIM2 = ["ialloc2", "iptr2"]
@@ -759,13 +761,13 @@ class Func:
         return [{"decl": d % g[0].n, "function_suffix": sfx} for d, sfx in g[0].gen]
 
     def cfi_ok(self):
-        """can this function be wrapped with F_CFI=true?  Kinds that need the context / size arguments have no
-        `_cfi` statement entry (theorem context_kinds_have_no_cfi_entry; known finding
+        """can this function be wrapped with F_CFI=true?  Arguments without a `_cfi` statement entry (std::vector,
+        T** out, char**) fall back to the bufferify statements (arg_to_CFI, fix in /repo); RESULTS that need the
+        context struct still cannot be combined with character arguments or results (open finding
         c01:F_CFI-generation-fails:context-or-vector-argument)"""
-        if any(getattr(a, "no_cfi", False) for a in self.args) or self.res == "vecres":
-            return False
-        stringy = any(isinstance(a, (CstrIn, CstrOut, CstrInout, StringIn, StringOut, StringInout)) for a in self.args)
-        return not (self.res in ("iptr", "ialloc", "iptr2", "ialloc2", "iptr3", "ialloc3") and stringy)
+        stringy = any(isinstance(a, (CstrIn, CstrOut, CstrInout, StringIn, StringOut, StringInout, ImplText, CharArrIn))
+                      for a in self.args)
+        return not (self.res in ("vecres", "iptr", "ialloc", "iptr2", "ialloc2", "iptr3", "ialloc3") and stringy)
 
     def cxx_only(self):
         return any(a.cxx_only for a in self.args) or (self.res != "void" and RESULTS[self.res][7]) or self.overload_of is not None
@@ -824,6 +826,13 @@ def fixed_spec(cxx):
     for i, res in enumerate(RES_DIM3):
         funcs.append(Func("rf%d" % i, res, [DimArg("fa%d" % i), DimArg2("fb%d" % i), DimArg3("fc%d" % i)]))
     funcs.append(Func("gvoid", "void", [GenVoid("addr")]))
+    # character arguments mixed with kinds that have no `_cfi` entry: with F_CFI=true these take the bufferify
+    # statements inside the CFI function; same trace required as with F_CFI=false
+    funcs.append(Func("mixp", "void", [CstrIn("ms"), PtrPtrOut("mp"), CstrOut("mo")]))
+    funcs.append(Func("mixc", "int", [CharArrIn("mc"), CstrInout("mi")]))
+    if cxx:
+        funcs.append(Func("mixv", "void", [StringIn("vs"), VecOut("vo"), VecIn("vi")]))
+        funcs.append(Func("mixw", "cstr", [VecInoutAlloc("wv"), StringOut("ws"), VecOutAlloc("wa")]))
     if cxx:
         funcs.append(Func("rvec", "vecres", [IntVal("qv")]))
     funcs += generic_funcs(cxx, "")
@@ -1112,7 +1121,42 @@ def first_diff(exp, got):
     return None
 
 
-def check_library(ctx, work, tag, lib, funcs, cxx, configs, workers=8):
+# which modelled kind (Props/C01.lean `Kind`) an oracle argument class / result executes
+KIND_OF = {
+    "IntVal": ["native"], "DblVal": ["native"], "DefInt": ["native"], "DimArg": ["native"], "DimArg2": ["native"], "DimArg3": ["native"],
+    "IntOut": ["native"], "IntInout": ["native"], "IntRefOut": ["native"], "HiddenOut": ["native"], "ArrIn": ["native"],
+    "ArrInout": ["native"], "ArrOut": ["native"], "GenDbl": ["native"], "GenArr": ["native"], "TplArg": ["native"], "GenVoid": ["native"],
+    "BoolVal": ["boolIn"], "BoolOut": ["boolOut"], "BoolInout": ["boolInout"],
+    "CstrIn": ["charIn"], "CstrOut": ["charOut"], "CstrInout": ["charInout"], "ImplText": ["charInout"],
+    "StringIn": ["stringIn"], "StringOut": ["stringOut"], "StringInout": ["stringInout"],
+    "ArrAllocOut": ["nativeOutAlloc"], "ArrAllocOutN": ["nativeOutAlloc"],
+    "VecIn": ["vectorIn"], "VecOut": ["vectorOut"], "VecOutAlloc": ["vectorOutAlloc"], "VecInout": ["vectorInout"],
+    "VecInoutAlloc": ["vectorInoutAlloc"], "PtrPtrOut": ["ptrPtrOut"], "PtrPtrOutN": ["ptrPtrOut"], "PtrPtrOut3": ["ptrPtrOut"],
+    "CharArrIn": ["charArrayIn"],
+}
+KIND_OF_RES = {"int": "native", "double": "native", "bool": "boolResult(default block)", "chr": "charScalarResult", "cstr_len": "charResult",
+               "string_len": "stringResult", "vecres": "vectorResultAlloc", "iptr": "resultPointer", "ialloc": "resultAlloc",
+               "iptr2": "resultPointer", "ialloc2": "resultAlloc", "iptr3": "resultPointer", "ialloc3": "resultAlloc",
+               "cstr": "allocatable character result (_partial)", "string": "allocatable character result (_partial)",
+               "string_ref": "allocatable character result (_partial)"}
+MODELLED_KINDS = ["boolIn", "boolOut", "boolInout", "charIn", "charOut", "charInout", "stringIn", "stringOut", "stringInout",
+                  "charResult", "stringResult", "charScalarResult", "native", "nativeOutAlloc", "vectorIn", "vectorOut",
+                  "vectorOutAlloc", "vectorInout", "vectorInoutAlloc", "vectorResult", "vectorResultAlloc", "ptrPtrOut",
+                  "resultPointer", "resultAlloc", "charArrayIn"]
+import collections as _collections
+KIND_RUNS = _collections.Counter()   # kind -> number of (function, configuration) executions whose trace matched
+
+
+def _count_kinds(funcs, cfi):
+    for f in funcs:
+        for a in f.args:
+            for k in KIND_OF.get(type(a).__name__, []):
+                KIND_RUNS["%s/%s" % (k, "cfi" if cfi else "buf")] += 1
+        if f.res != "void" and f.res in KIND_OF_RES:
+            KIND_RUNS["%s/%s" % (KIND_OF_RES[f.res], "cfi" if cfi else "buf")] += 1
+
+
+def check_library(ctx, work, tag, lib, funcs, cxx, configs, workers=8, force=False):
     """configs: list of (F_CFI, debug).  Returns number of configurations run."""
     exp = expected_trace(funcs)
     san = asan_flags(work)
@@ -1121,7 +1165,7 @@ def check_library(ctx, work, tag, lib, funcs, cxx, configs, workers=8):
         d = os.path.join(work, "%s-%s-%d%d" % (tag, "cxx" if cxx else "c", int(cfi), int(dbg)))
         jobs.append((d, cfi, dbg))
 
-    funcs_cfi = [f for f in funcs if f.cfi_ok()]
+    funcs_cfi = [f for f in funcs if force or f.cfi_ok()]
     exp_cfi = expected_trace(funcs_cfi)
     all_funcs, exp_all = funcs, exp
 
@@ -1141,7 +1185,9 @@ def check_library(ctx, work, tag, lib, funcs, cxx, configs, workers=8):
         if stage != "run":
             # which function?  C05 owns compilability; here it is reported because the call cannot be made at all
             m = re.search(r"(fn\d+|k\d+|r\d+|dflt|ov)\w*", out or "")
-            key = "c01:%s-fails:%s:%s" % (stage, "cxx" if cxx else "c", _sig_of(funcs, m.group(1)) if m else "?")
+            fl = funcs_cfi if cfi else all_funcs
+            signame = m.group(1) if m else (fl[0].name if len(fl) == 1 else None)
+            key = "c01:%s-fails:%s:%s" % (stage, "cxx" if cxx else "c", _sig_of(fl, signame) if signame else "?")
             ctx.fail(key, "generated wrappers do not %s under %s: %s" % (
                 "compile/link" if stage == "compile" else "generate", cfgname, (out or "")[-600:]),
                 {"yaml": y, "config": cfgname, "function": m.group(0) if m else None, "values": None, "output": (out or "")[-1500:]})
@@ -1152,6 +1198,7 @@ def check_library(ctx, work, tag, lib, funcs, cxx, configs, workers=8):
         df = first_diff(exp, got)
         if df is None and ok:
             ctx.nontrivial((tag, cxx, cfi, dbg))
+            _count_kinds(funcs, cfi)
             continue
         if df is None:
             ctx.fail("c01:runtime-error:%s" % tag, "driver exits with an error (sanitizer / runtime) under %s: %s" % (cfgname, out[-800:]),
